@@ -181,6 +181,7 @@ def walk(root):
         return k
 
     r = visit(root)
+    walk.last_objects = keep     # the live objects, index = id
     return objs, ids, funcs, r
 
 
@@ -356,6 +357,17 @@ def observe(bundle, g, mod):
         except Exception as e:
             reg.append(type(e).__name__)
     out["reg"] = reg
+    # the model registers on every Overloaded object of the graph; do the same for those no dataset of
+    # the bundle owns (e.g. one replaced by set_dispatch but still referenced from a lookup table)
+    try:
+        objs, _ids, _funcs, _r = walk(bundle)
+        for k, (head, _kids) in enumerate(objs):
+            if head[0] == "I" and head[1] == "Overloaded":
+                ov = walk.last_objects[k]
+                if "late" not in getattr(ov, "lookup", {"late": None}):
+                    ov.register("late", Option("LATE"))
+    except Exception as e:
+        reg.append("direct:" + type(e).__name__)
     try:
         out["R"] = tables(bundle)
     except Exception as e:
@@ -379,6 +391,8 @@ def main_a(specfile, picklefile):
     parts = {}
     for name, obj in getattr(mod, "PARTS", {}).items():
         try:
+            if obj is None:
+                raise ValueError("could not be built")
             pickle.loads(pickle.dumps(obj))
             parts[name] = True
         except Exception as e:
@@ -387,6 +401,10 @@ def main_a(specfile, picklefile):
         gid = g["gid"]
         res = {"gid": gid, "dump_err": {}, "load_err": {}, "inproc": {}}
         results[gid] = res
+        if gid not in mod.GRAPHS:
+            res["build_err"] = norm(str(getattr(mod, "GRAPH_ERRORS", {}).get(gid, "missing")))
+            blobs[gid] = {}
+            continue
         bundle = mod.GRAPHS[gid]
         root = bundle[-1]
         for i in g["warm"]:
@@ -412,6 +430,9 @@ def main_a(specfile, picklefile):
     for g in spec["graphs"]:
         gid = g["gid"]
         res = results[gid]
+        if "build_err" in res:
+            print(json.dumps(res))
+            continue
         for p, b in blobs[gid].items():
             try:
                 cp = pickle.loads(b)
@@ -499,19 +520,26 @@ def late_fn(z=Option("LATE2", "z")):
     return ["late_fn", z]
 
 
-PARTS = {
-    "cb_wrap": cb_wrap,
-    "map_wrap_list": F.map(cb_wrap) + list,
-    "ps_tag": ps_tag,
-    "partial_tag": F.partial(cb_tag, tag=Option("TAG", "t")),
-    "get0": F.get(0),
-    "eff_log": eff_log,
-    "eff_check": eff_check,
-    "eff_tagged": F.partial(eff_tagged, tag=Option("TAG", "t")),
-    "cbeffect": CallbackEffect(eff_log),
-}
+PARTS = {}
+for _name, _mk in [
+    ("cb_wrap", lambda: cb_wrap),
+    ("map_wrap_list", lambda: F.map(cb_wrap) + list),
+    ("ps_tag", lambda: ps_tag),
+    ("partial_tag", lambda: F.partial(cb_tag, tag=Option("TAG", "t"))),
+    ("get0", lambda: F.get(0)),
+    ("eff_log", lambda: eff_log),
+    ("eff_check", lambda: eff_check),
+    ("eff_tagged", lambda: F.partial(eff_tagged, tag=Option("TAG", "t"))),
+    ("cbeffect", lambda: CallbackEffect(eff_log)),
+]:
+    try:
+        PARTS[_name] = _mk()
+    except Exception:
+        PARTS[_name] = None
+del _name, _mk
 
 GRAPHS = {}
+GRAPH_ERRORS = {}
 '''
 
 CALLBACKS = {
@@ -622,11 +650,15 @@ def node_src(n: Dict[str, Any]) -> List[str]:
 def module_src(graphs: List[Dict[str, Any]]) -> str:
     lines = [MODULE_PRELUDE]
     for g in graphs:
+        # `try` does not open a scope: the functions / datasets below are still module-level names
         lines.append(f"# ---- {g['gid']}: {g.get('note', '')}")
+        lines.append("try:")
         for n in g["nodes"]:
-            lines.extend(node_src(n))
+            lines.extend("    " + l for l in node_src(n))
             lines.append("")
-        lines.append(f"GRAPHS[{g['gid']!r}] = [" + ", ".join(n["name"] for n in g["nodes"]) + "]")
+        lines.append(f"    GRAPHS[{g['gid']!r}] = [" + ", ".join(n["name"] for n in g["nodes"]) + "]")
+        lines.append("except Exception as _e:   # construction itself fails: not a pickling matter")
+        lines.append(f"    GRAPH_ERRORS[{g['gid']!r}] = type(_e).__name__ + ': ' + str(_e)")
         lines.append("")
     return "\n".join(lines) + "\n"
 
@@ -1039,6 +1071,8 @@ def first_diff(a: Any, b: Any, path: str = "") -> str:
 def judge(g: Dict[str, Any], r: Dict[str, Any], module: str, protocols: List[int]) -> List[Tuple[str, str, Optional[str]]]:
     """returns (kind, what, known_id) for everything wrong with this graph"""
     out: List[Tuple[str, str, Optional[str]]] = []
+    if "build_err" in r:
+        return out          # the graph could not even be constructed: nothing to pickle, not a C20 matter
     model = r.get("model")
     if "heap_err" in r:
         out.append(("correspondence", f"the object graph could not be abstracted for the model: {r['heap_err']}", None))
@@ -1210,6 +1244,7 @@ def explore(ctx: Ctx) -> Exploration:
     f12: List[Tuple[Dict[str, Any], Dict[str, Any], str, List[int], str]] = []
     n_deco = 0
     skipped_parts = 0
+    build_failed = 0
     parts_seen: Dict[str, bool] = {}
 
     corp = corpus("c")
@@ -1229,6 +1264,10 @@ def explore(ctx: Ctx) -> Exploration:
             gid = g["gid"]
             r = res["graphs"].get(gid, {})
             v = verdicts[gid]
+            if "build_err" in r:
+                dist["outside_property:construction_failed"] += 1
+                build_failed += 1
+                continue
             if uses_unpicklable_part(g, res["parts"]):
                 # a callback / effect helper that does not pickle on its own: outside "picklable parts"
                 skipped_parts += 1
@@ -1292,6 +1331,9 @@ def explore(ctx: Ctx) -> Exploration:
                         payload["all_findings_on_this_graph"] = [f"{k}: {w}" for k, w in same][:12]
                         payload["shrunk_from"] = g["nodes"]
             findings.append(Finding(kind, what, payload))
+    if cov_cases == 0:
+        raise Infra(f"C20: none of the generated graphs could be constructed / used ({build_failed} construction "
+                    f"failures, {skipped_parts} using unpicklable parts)")
     if f12:
         g, r, module, protocols, what = min(f12, key=lambda t: len(json.dumps(t[0]["nodes"])))
         findings.append(Finding(
@@ -1313,6 +1355,7 @@ def explore(ctx: Ctx) -> Exploration:
                      "loading the bytes",
         "picklable_parts": parts_seen,
         "outside_property_skipped": skipped_parts,
+        "construction_failed": build_failed,
         "samples": samples[:5],
         "distribution": dict(sorted(dist.items())),
     }
